@@ -173,7 +173,16 @@ pub fn check_fsinfo(it: &Interp, vt: &VolTrack) -> Option<Failure> {
         }
     } else {
         let exp = s0 as i64 + (f1 as i64 - f0 as i64);
-        if (0..=0xFFFF_FFFEi64).contains(&exp) && s1 as i64 != exp {
+        // exactness is only demanded when the running value can never have left
+        // the representable range: the stored count started at or above the
+        // true number of free entries and far enough below u32::MAX
+        let exact = s0 >= f0 && (s0 as u64) + (vt.lay.clusters as u64) < 0xFFFF_FFFE;
+        if !exact {
+            // a stale-low count saturates at zero on the way; it can then only be too high
+            if (s1 as i64) < exp.max(0) {
+                return Some(fail("C16", "free-count-drift", format!("slot {}: stored free count {} -> {} is below {} although free FAT entries went {} -> {}", vt.slot, s0, s1, exp, f0, f1)));
+            }
+        } else if (0..=0xFFFF_FFFEi64).contains(&exp) && s1 as i64 != exp {
             return Some(fail(
                 "C16",
                 "free-count-drift",
@@ -182,7 +191,10 @@ pub fn check_fsinfo(it: &Interp, vt: &VolTrack) -> Option<Failure> {
         }
     }
     let hint_was_sane = n0 == 0xFFFF_FFFF || (n0 >= 2 && n0 < vt.lay.clusters + 2);
-    if (hint_was_sane || vt.changed_since_mount) && !(n1 == 0xFFFF_FFFF || (n1 >= 2 && n1 < vt.lay.clusters + 2)) {
+    // A hint that was already wrong at mount and that the crate left exactly as
+    // found is not the crate's doing; anything it *wrote* must be sane.
+    let _ = vt.changed_since_mount;
+    if (hint_was_sane || n1 != n0) && !(n1 == 0xFFFF_FFFF || (n1 >= 2 && n1 < vt.lay.clusters + 2)) {
         return Some(fail("C16", "next-free-out-of-range", format!("slot {}: next-free hint {:#x} is neither unknown nor inside the volume ({} clusters)", vt.slot, n1, vt.lay.clusters)));
     }
     None
@@ -190,15 +202,37 @@ pub fn check_fsinfo(it: &Interp, vt: &VolTrack) -> Option<Failure> {
 
 /// C02 reader half: a model file as seen by the independent reader on the medium.
 pub fn check_file_on_medium(it: &Interp, ctx: &Ctx, node: usize) -> Option<Failure> {
-    let n = &it.nodes[node];
-    if n.tainted || !it.is_alive_path(node) {
-        return None;
+    check_files_on_medium(it, ctx, &[node])
+}
+
+/// One walk per volume, then every listed model node is compared with it.
+pub fn check_files_on_medium(it: &Interp, ctx: &Ctx, nodes: &[usize]) -> Option<Failure> {
+    for vt in &ctx.vols {
+        let mine: Vec<usize> = nodes.iter().copied().filter(|n| it.nodes[*n].slot == vt.slot && !it.nodes[*n].tainted && it.is_alive_path(*n)).collect();
+        if mine.is_empty() {
+            continue;
+        }
+        let r = it.disk.with_img(|img| {
+            let fv = FatView::new(img, &vt.lay);
+            let w = fsck::walk(img, &fv, &[]);
+            for node in &mine {
+                if let Some(f) = compare_node_with_walk(it, vt, img, &w, *node) {
+                    return Some(f);
+                }
+            }
+            None
+        });
+        if r.is_some() {
+            return r;
+        }
     }
-    let vt = ctx.vols.iter().find(|v| v.slot == n.slot)?;
+    None
+}
+
+fn compare_node_with_walk(it: &Interp, vt: &VolTrack, img: &Image, w: &fsck::Walk, node: usize) -> Option<Failure> {
+    let n = &it.nodes[node];
     let path = it.path_of(node);
-    it.disk.with_img(|img| {
-        let fv = FatView::new(img, &vt.lay);
-        let w = fsck::walk(img, &fv, &[]);
+    {
         let Some(f) = fsck::find_path(&w.root, &path) else {
             return Some(fail("C02", "file-missing-on-medium", format!("{} not found by the independent reader", path)));
         };
@@ -243,7 +277,7 @@ pub fn check_file_on_medium(it: &Interp, ctx: &Ctx, node: usize) -> Option<Failu
             }
         }
         None
-    })
+    }
 }
 
 /// C02: everything the history did not touch is unchanged (entry-for-entry, byte-for-byte).
@@ -309,13 +343,15 @@ pub fn check_untouched(it: &Interp, ctx: &Ctx) -> Option<Failure> {
         }
     }
     // 2. contents of untouched files
-    for (id, n) in it.nodes.iter().enumerate() {
-        if n.is_dir || n.touched || n.tainted || n.raw0.is_none() || !it.is_alive_path(id) {
-            continue;
-        }
-        if let Some(f) = check_file_on_medium(it, ctx, id) {
-            return Some(Failure { sig: f.sig.replace("C02/", "C02/untouched-"), detail: f.detail });
-        }
+    let untouched: Vec<usize> = it
+        .nodes
+        .iter()
+        .enumerate()
+        .filter(|(id, n)| !(n.is_dir || n.touched || n.tainted || n.raw0.is_none() || !it.is_alive_path(*id)))
+        .map(|(id, _)| id)
+        .collect();
+    if let Some(f) = check_files_on_medium(it, ctx, &untouched) {
+        return Some(Failure { sig: f.sig.replace("C02/", "C02/untouched-"), detail: f.detail });
     }
     None
 }
@@ -391,6 +427,11 @@ pub fn run_case(cfg: &FsxCfg, case: &Case, acc: &mut Acc, known: &[KnownFinding]
         let info = it.step(i, st);
         if verbose {
             println!("{}", it.trace.last().cloned().unwrap_or_default());
+            let inner = it.disk.0.borrow();
+            let w: Vec<String> = inner.log[info.log_start..info.log_end].iter().map(|r| format!("{}{}", r.block, if r.old == r.new { "=" } else { "" })).collect();
+            if !w.is_empty() {
+                println!("      writes: {}", w.join(" "));
+            }
         }
         // divergences
         if let Some(d) = first_relevant(&it.divs, prop) {
@@ -419,9 +460,15 @@ pub fn run_case(cfg: &FsxCfg, case: &Case, acc: &mut Acc, known: &[KnownFinding]
             }
         }
         if info.log_end > info.log_start {
-            if let Some(vt) = ctx.vols.iter_mut().find(|v| Some(v.slot) == info.slot) {
-                if matches!(info.kind, "Write" | "Open" | "Mkdir" | "Delete") {
-                    vt.changed_since_mount = true;
+            // the crate recomputes its next-free hint whenever it allocates or frees,
+            // i.e. whenever it writes a FAT sector
+            let inner = it.disk.0.borrow();
+            for rec in &inner.log[info.log_start..info.log_end] {
+                for vt in ctx.vols.iter_mut() {
+                    let f0 = vt.lay.fat_start(0);
+                    if rec.block >= f0 && rec.block < f0 + vt.lay.num_fats * vt.lay.fat_sectors && rec.old != rec.new {
+                        vt.changed_since_mount = true;
+                    }
                 }
             }
         }
@@ -444,6 +491,33 @@ pub fn run_case(cfg: &FsxCfg, case: &Case, acc: &mut Acc, known: &[KnownFinding]
             if let Some(f) = final_checks(prop, &it, &ctx) {
                 result = Err(f);
             }
+        }
+    }
+    // C16 differential half: the same history on the same image with a correct
+    // information sector must give exactly the same API results.
+    if prop == "C16" && result.is_ok() && it.divs.is_empty() {
+        let stale = case.disk.vols.iter().flatten().any(|v| v.geom.fat32 && v.geom.fsinfo != FsInfoKind::Correct);
+        if stale {
+            let mut c2 = case.clone();
+            for v in c2.disk.vols.iter_mut().flatten() {
+                v.geom.fsinfo = FsInfoKind::Correct;
+            }
+            let mut it2 = Interp::new(&c2, Opts::default());
+            for (i, st) in steps.iter().enumerate() {
+                let _ = it2.step(i, st);
+                if !it2.divs.is_empty() {
+                    break;
+                }
+            }
+            let n = it.trace.len().min(it2.trace.len());
+            for k in 0..n {
+                if it.trace[k] != it2.trace[k] {
+                    result = Err(fail("C16", "fsinfo-changes-results", format!("with the generated information sector: {} / with a correct one: {}", it.trace[k], it2.trace[k])));
+                    break;
+                }
+            }
+            acc.class("fsinfo-differential-run");
+            nt_flags.fsinfo_checked = true;
         }
     }
     acc.ops += it.stats.ops;
@@ -537,7 +611,7 @@ impl NtFlags {
             self.alloc_after_free = true;
         }
         if let Some(e) = &info.err {
-            if !e.starts_with("NotFound") {
+            if matches!(info.kind, "Open" | "Write" | "Mkdir" | "Delete") && !e.starts_with("NotFound") {
                 self.non_notfound_error = true;
             }
         }
@@ -643,12 +717,9 @@ fn final_checks(prop: &str, it: &Interp, ctx: &Ctx) -> Option<Failure> {
             d.first().map(|d| fail("C01", d.code, format!("fresh handles after the history: {}", d.detail)))
         }
         "C02" => {
-            for id in it.alive_files() {
-                if it.nodes[id].touched {
-                    if let Some(f) = check_file_on_medium(it, ctx, id) {
-                        return Some(f);
-                    }
-                }
+            let touched: Vec<usize> = it.alive_files().into_iter().filter(|id| it.nodes[*id].touched).collect();
+            if let Some(f) = check_files_on_medium(it, ctx, &touched) {
+                return Some(f);
             }
             if let Some(f) = check_untouched(it, ctx) {
                 return Some(f);
@@ -677,13 +748,13 @@ fn final_checks(prop: &str, it: &Interp, ctx: &Ctx) -> Option<Failure> {
 
 pub fn quick_cases(prop: &str, tier: Tier) -> u64 {
     match prop {
-        "C01" => tier.pick(4000, 150_000),
-        "C02" => tier.pick(2500, 80_000),
-        "C03" => tier.pick(2500, 80_000),
-        "C04" => tier.pick(2500, 80_000),
-        "C05" => tier.pick(2500, 80_000),
-        "C16" => tier.pick(2500, 80_000),
-        "C07" => tier.pick(3000, 100_000),
+        "C01" => tier.pick(30_000, 1_500_000),
+        "C02" => tier.pick(12_000, 500_000),
+        "C03" => tier.pick(20_000, 800_000),
+        "C04" => tier.pick(15_000, 600_000),
+        "C05" => tier.pick(8_000, 300_000),
+        "C16" => tier.pick(15_000, 600_000),
+        "C07" => tier.pick(20_000, 800_000),
         _ => tier.pick(2000, 50_000),
     }
 }
